@@ -107,6 +107,31 @@ def r1_precedence(ctx):
     ctx.need('R1.precedence', 6)
 
 
+class _Cmp:
+    """a comparison  model.<attr> OP band['<key>']  whatever side the source wrote the model on"""
+    def __init__(self, node, model, band, op):
+        self.node, self.left, self.comparators, self.ops = node, model, [band], [op]
+        self.lineno, self.col_offset = node.lineno, node.col_offset
+
+
+def orient(c):
+    if not (isinstance(c, ast.Compare) and len(c.ops) == 1):
+        return None
+    flip = {ast.Lt: ast.Gt, ast.Gt: ast.Lt, ast.LtE: ast.GtE, ast.GtE: ast.LtE}
+
+    def is_model(e):
+        return isinstance(e, ast.Attribute) and e.attr in ('f_min', 'f_max')
+
+    def is_band(e):
+        return isinstance(e, ast.Subscript) and isinstance(e.slice, ast.Constant) and e.slice.value in ('f_min', 'f_max')
+    le, ri = c.left, c.comparators[0]
+    if is_model(le) and is_band(ri):
+        return _Cmp(c, le, ri, c.ops[0])
+    if is_band(le) and is_model(ri) and type(c.ops[0]) in flip:
+        return _Cmp(c, ri, le, flip[type(c.ops[0])]())
+    return None
+
+
 def band_tests(repo):
     """(func, BoolOp/Compare list) for every conjunct group comparing a model's f_min / f_max with a band"""
     out = []
@@ -123,9 +148,7 @@ def band_tests(repo):
                     conj += i.values if isinstance(i, ast.BoolOp) and isinstance(i.op, ast.And) else [i]
             if not conj:
                 continue
-            cmps = [c for c in conj if isinstance(c, ast.Compare) and len(c.ops) == 1 and isinstance(c.left, ast.Attribute) and
-                    c.left.attr in ('f_min', 'f_max') and isinstance(c.comparators[0], ast.Subscript) and
-                    isinstance(c.comparators[0].slice, ast.Constant) and c.comparators[0].slice.value in ('f_min', 'f_max')]
+            cmps = [orient(c) for c in conj if orient(c) is not None]
             if cmps:
                 out.append((f, n, cmps))
     # a BoolOp nested in a comprehension if is seen twice: keep the outermost grouping per first compare
@@ -144,14 +167,14 @@ def r2_band_cover(ctx):
         lo = [c for c in cmps if c.left.attr == 'f_min']
         hi = [c for c in cmps if c.left.attr == 'f_max']
         ok = len(lo) == 1 and len(hi) == 1
-        det = ' and '.join(ast.unparse(c) for c in cmps)
+        det = ' and '.join(ast.unparse(c.node) for c in cmps)
         if ok:
             l, h = lo[0], hi[0]
             ok = isinstance(l.ops[0], ast.LtE) and isinstance(h.ops[0], ast.GtE) and \
                 l.comparators[0].slice.value == 'f_min' and h.comparators[0].slice.value == 'f_max' and \
                 ast.unparse(l.left.value) == ast.unparse(h.left.value) and \
                 ast.unparse(l.comparators[0].value) == ast.unparse(h.comparators[0].value)
-        ctx.check('R2.band-cover', site(f, cmps[0]), ok, f'{f.qual}|band-cover|{ast.unparse(cmps[0].left.value)}',
+        ctx.check('R2.band-cover', site(f, cmps[0].node), ok, f'{f.qual}|band-cover|{ast.unparse(cmps[0].left.value)}',
                   'a model is matched to a design band by something other than  model.f_min <= band.f_min and model.f_max >= band.f_max '
                   '(same model, same band): a model that does not cover the band can be selected', det)
     ctx.need('R2.band-cover', 4, 'preselect_multiband_amps, get_node_restrictions x2, set_egress_amplifier')
@@ -351,15 +374,15 @@ def r5_capability(ctx):
     shapes = [shape(c) for c in comp_defs(R)] if R else []
     shapes = [x for x in shapes if x]
     srcs = {x[0] for x in shapes}
-    ok = len(shapes) == 2 and len(srcs) == 1 and any(x[1] == '_.power > 0' for x in shapes)
+    ok = len(shapes) == 2 and len(srcs) == 1 and any(x[1] == '0 < _.power' for x in shapes)
     ctx.check('R5.capability', f'{site(f)} power filter', ok, key(f, 'filter|power'),
               'the returned list is not the gain-acceptable candidates whose power score is > 0 (with the fall-back below)', f'{shapes}')
     L2 = srcs.pop() if len(srcs) == 1 else None
-    fb = [x for x in shapes if x[1] != '_.power > 0']
+    fb = [x for x in shapes if x[1] != '0 < _.power']
     pm = None
     if fb:
         import re
-        m = re.fullmatch(r'_\.power - (\w+) > -0\.3', fb[0][1])
+        m = re.fullmatch(r'-0\.3 < _\.power - (\w+)', fb[0][1])
         pm = m.group(1) if m else None
     pmd = [ast.unparse(v) for _, v in defs.get(pm, []) if isinstance(v, ast.AST)] if pm else []
     ok = pm is not None and pmd == [f"max({L2}, key=attrgetter('power')).power"]
@@ -368,7 +391,7 @@ def r5_capability(ctx):
               'candidates"', f'{fb} {pmd}')
     s2 = [shape(c) for c in comp_defs(L2)] if L2 else []
     s2 = [x for x in s2 if x]
-    ok = len(s2) == 1 and s2[0][1] == '_.gain_min > 0'
+    ok = len(s2) == 1 and s2[0][1] == '0 < _.gain_min'
     ctx.check('R5.capability', f'{site(f)} gain filter', ok, key(f, 'filter|gain'),
               'candidates are not first kept on a positive minimum-gain margin', f'{s2}')
     L1 = s2[0][0] if s2 else None
